@@ -113,3 +113,21 @@ Fixpoint wf_policy (c : cpolicy) : bool :=
 Definition wf_cfg (g : config) : bool :=
   forallb (fun p => match p with P4 n l => prefix_ok n l | P6 => true end) (g_addresses g)
   && forallb wf_policy (g_policies g).
+
+(* ---- top-level defaults (erbium.conf(5), "Top level Configuration") -------
+   dns-servers: "the default dns servers to be handed out by DHCP ... limited
+   to IPv4"; "$self4 ... will use the local IPv4 address of the interface the
+   request arrived on"; dns-search: the default search path; captive-portal:
+   the RFC 8910 URL.  Three-state: Some None = configured as absent. *)
+Definition doc_dns (sip : N) (l : list dns_item) : list N :=
+  flat_map (fun d => match d with
+                     | DSelf4 => [sip]
+                     | DV4 x => [if x =? 0 then sip else x]
+                     | DSelf6 | DV6 => []
+                     end) l.
+Definition top_level_default (g : config) (req : request) (k : N) : option (option (list N)) :=
+  if k =? 6 then
+    Some (Some (flat_map be32 (doc_dns (r_serverip req) (match g_dns g with Some l => l | None => [DSelf4; DSelf6] end))))
+  else if k =? 119 then Some (Some (flat_map domain_bytes (g_search g)))
+  else if k =? 114 then Some (g_portal g)
+  else None.
